@@ -36,6 +36,16 @@ pub struct FaultReader<'a> {
     pub delivered_nonempty_before_fault: bool,
 }
 
+/// payload of the injected error: "that I/O error" means the caller gets this very object back
+#[derive(Debug)]
+pub struct Injected(pub u64);
+impl std::fmt::Display for Injected {
+    fn fmt(&self, f: &mut std::fmt::Formatter<'_>) -> std::fmt::Result {
+        write!(f, "injected fault at read {}", self.0)
+    }
+}
+impl std::error::Error for Injected {}
+
 impl Read for FaultReader<'_> {
     fn read(&mut self, buf: &mut [u8]) -> std::io::Result<usize> {
         let idx = self.reads;
@@ -43,7 +53,11 @@ impl Read for FaultReader<'_> {
         if Some(idx) == self.fault_at {
             self.faulted = true;
             self.delivered_nonempty_before_fault = self.pos > 0;
-            return Err(std::io::Error::new(self.kind, "injected fault"));
+            // every third fault is an OS-style error (raw code), the others carry a custom payload
+            if idx % 3 == 2 {
+                return Err(std::io::Error::from_raw_os_error(5));
+            }
+            return Err(std::io::Error::new(self.kind, Injected(idx)));
         }
         if self.pos >= self.data.len() || buf.is_empty() {
             return Ok(0);
@@ -62,7 +76,14 @@ pub fn run_reader(data: &[u8], sizes: &[u32], fault_at: Option<u64>, kind: Error
     if rd.faulted {
         match r {
             Err(GeneratorOrIOError::IOError(e)) => {
-                ensure_eq!(e.kind(), kind, "hash_stream: kind of the returned I/O error (fault at read {:?})", fault_at);
+                let idx = fault_at.unwrap();
+                if idx % 3 == 2 {
+                    ensure_eq!(e.raw_os_error(), Some(5), "hash_stream: the OS error code of the failed read {} is not handed back", idx);
+                } else {
+                    ensure_eq!(e.kind(), kind, "hash_stream: kind of the returned I/O error (fault at read {:?})", fault_at);
+                    let same = e.get_ref().and_then(|r| r.downcast_ref::<Injected>()).map(|i| i.0);
+                    ensure_eq!(same, Some(idx), "hash_stream: the error of the failed read {} is not handed back as it was (payload)", idx);
+                }
             }
             Err(GeneratorOrIOError::GeneratorError(e)) => {
                 return Err(format!("hash_stream returned a generator error {:?} instead of the injected I/O error {:?} (fault at read {:?})", e, kind, fault_at))
